@@ -388,3 +388,31 @@ End WifStatements.
 Print Assumptions wif_accepts_iff.
 Print Assumptions wif_roundtrip.
 Print Assumptions wif_errors.
+
+(* ================================================================== SS58 and Monero block-Base58
+   The two remaining checksummed / block text decoders of the property (models and proofs: Lemmas/SS58*.v,
+   Lemmas/Base58Xmr.v, XmrConstsOk.v, developed under C11): a string is accepted exactly when it is the
+   encoder's output for the returned value, so nothing non-canonical or damaged is decoded to a payload. *)
+From BU Require Model.Codecs.
+From BU Require Lemmas.SS58Ok Lemmas.XmrConstsOk.
+
+Theorem ss58_accepts_iff : forall (blake2b512 : list N -> list N) s f data,
+  (forall x, length (blake2b512 x) = 64%nat) -> (forall x, bytes_ok (blake2b512 x)) ->
+  (Codecs.ss58_decode blake2b512 s = Ok (f, data) <->
+   (Codecs.ss58_encode blake2b512 data (BinInt.Z.of_N f) = Ok s /\ bytes_ok data)).
+Proof. intros blake s f data H1 H2. apply SS58Ok.ss58_accepts_iff; assumption. Qed.
+Print Assumptions ss58_accepts_iff.
+
+Theorem ss58_errors : forall (blake2b512 : list N -> list N) s e,
+  Codecs.ss58_decode blake2b512 s = Err e -> e = ValueError \/ e = LibError SS58ChecksumError.
+Proof. exact SS58Ok.ss58_decode_err. Qed.
+Print Assumptions ss58_errors.
+
+Theorem xmr_b58_accepts_iff : forall s,
+  (exists b, Codecs.xmr_decode s = Ok b) <-> (exists b, bytes_ok b /\ Codecs.xmr_encode b = Ok s).
+Proof. exact XmrConstsOk.xmr_decode_accepts_iff. Qed.
+Print Assumptions xmr_b58_accepts_iff.
+
+Theorem xmr_b58_errors : forall s e, Codecs.xmr_decode s = Err e -> e = ValueError.
+Proof. exact XmrConstsOk.xmr_decode_err. Qed.
+Print Assumptions xmr_b58_errors.
